@@ -10,9 +10,6 @@ Local Open Scope N_scope.
 
 (* ---------- little-endian encodings ---------- *)
 
-Lemma N_to_le_length : forall n x, length (N_to_le n x) = n.
-Proof. induction n; intros x; simpl; [reflexivity|]. now rewrite IHn. Qed.
-
 Lemma w8_mod : forall x, w8 x = N.land x (N.ones 8).
 Proof. reflexivity. Qed.
 
@@ -142,16 +139,6 @@ Proof.
   rewrite le_to_N_app_zeros. reflexivity.
 Qed.
 
-Lemma Forall_chunks16 : forall l k, length l = (16 * k)%nat -> Forall (fun b => length b = 16%nat) (chunks 16 l).
-Proof.
-  intros l k. revert l. induction k; intros l Hl.
-  - destruct l; [constructor|simpl in Hl; lia].
-  - rewrite chunks_cons; [|lia|destruct l; simpl in *; [lia|discriminate]].
-    constructor.
-    + rewrite firstn_length. lia.
-    + apply IHk. rewrite skipn_length. lia.
-Qed.
-
 Lemma poly_blocks_full : forall bs acc r, Forall (fun b => length b = 16%nat) bs ->
   poly_blocks acc r bs false = poly_blocks acc r bs true.
 Proof.
@@ -227,14 +214,11 @@ Qed.
 Lemma tag_of_spec : forall key iv aad ct,
   tag_of pblock_spec pfinish_spec pkey_gen_spec key iv aad ct = chachapoly_tag key iv aad ct.
 Proof.
-  intros. rewrite <- chachapoly_tag_inc_eq. unfold tag_of, chachapoly_tag_inc, pfinish_spec.
+  intros. transitivity (chachapoly_tag_inc key iv aad ct); [|apply chachapoly_tag_inc_eq].
+  unfold tag_of, chachapoly_tag_inc, pfinish_spec.
   rewrite !paead_update_spec, pkey_gen_spec_r, pkey_gen_spec_s.
-  f_equal. unfold len64.
-  set (lens := le64 (N.of_nat (length aad)) ++ le64 (N.of_nat (length ct))).
-  assert (Hl : length lens = 16%nat) by (subst lens; rewrite app_length, !le64_length; reflexivity).
-  unfold poly_update at 1.
-  rewrite (chunks_short 16 lens); [|lia|destruct lens; [simpl in Hl; lia|discriminate]|lia].
-  reflexivity.
+  (* the 16-byte length block is a single chunk *)
+  f_equal.
 Qed.
 
 Lemma ct_of_spec : forall key iv dir P,
@@ -267,7 +251,8 @@ Proof.
   destruct (run_direct _ _ _ _ ctx0 key iv aad dir segs taglen) as [[ctx' os] t].
   destruct H as (H1 & H2 & H3 & H4).
   rewrite oneshot_unfold. cbn [fst snd].
-  rewrite H1, H3, ref_out_chacha20, tag_of_spec, ct_of_spec. auto.
+  rewrite H1, H3, ref_out_chacha20, tag_of_spec, ct_of_spec.
+  clear H1 H3. split; [reflexivity|]. split; [exact H2|]. split; [reflexivity|exact H4].
 Qed.
 
 Theorem chachapoly_job_all_partition_invariant : forall ctx0 key iv aad dir segs,
@@ -285,9 +270,9 @@ Proof.
   destruct H as (H1 & H2 & H3 & H4).
   rewrite oneshot_unfold. cbn [fst snd].
   rewrite H1, H3, ref_out_chacha20, tag_of_spec, ct_of_spec.
-  repeat split; try assumption.
-  f_equal. apply firstn_all2. unfold chachapoly_tag, poly1305_mac, poly_finish.
-  rewrite N_to_le_length. lia.
+  clear H1 H3. split; [reflexivity|]. split; [exact H2|]. split; [|exact H4].
+  (* the Spec tag is N_to_le 16 _: firstn 16 of it is itself, by computation *)
+  f_equal.
 Qed.
 
 Theorem chachapoly_job_iuc_partition_invariant : forall ctx0 key iv aad dir first mids last,
@@ -305,7 +290,8 @@ Proof.
   destruct (run_job_iuc _ _ _ _ ctx0 key iv aad dir first mids last) as [[ctx' os] t].
   destruct H as (H1 & H2 & H3).
   rewrite oneshot_unfold. cbn [fst snd].
-  rewrite H1, H2, ref_out_chacha20, tag_of_spec, ct_of_spec. auto.
+  rewrite H1, H2, ref_out_chacha20, tag_of_spec, ct_of_spec.
+  clear H1 H2. split; [reflexivity|]. split; [reflexivity|exact H3].
 Qed.
 
 (* the context invariant after any sequence of updates, Spec instance *)
